@@ -169,13 +169,87 @@ def run(ctx):
             if x is not None and x != m and len(ctx.corr_broken) < 5:
                 ctx.corr_broken.append({"stream": "reserve/release-vs-rstep", "events": lines, "at": l, "real": x, "model": m})
                 break
-    ctx.coverage["rule"] = ("sequences of 2-8 events on one destination node: dispatch of a pull (real DefaultNodeIO.pull: sizes 0..400, free "
+    stage_concurrent(ctx)
+    ctx.coverage["rule"] = ("concurrent: 2-3 threads reserving/releasing on one node under the deterministic scheduler (scheduling points before "
+                            "every mutex acquisition and after every release): never over-committed, balance returns to zero, no failing "
+                            "release; sequential: sequences of 2-8 events on one destination node: dispatch of a pull (real DefaultNodeIO.pull: sizes 0..400, free "
                             "space 50..10^6 or unknown, under-min / at-limit configurations) or completion of the oldest pull task by one of "
                             "{already present, no route, transport failure, digest mismatch, success, DB error at the first statement, DB "
                             "error later} in a real Worker; _reserved_bytes is read after every event and compared with the Lean model; "
                             "oracles: never negative, zero when nothing is live, admission inequality. distinct = event sequence")
     from props.c06 import finish_search
     finish_search(ctx, ok)
+
+
+def stage_concurrent(ctx):
+    """several workers reserving / releasing on one node at once, under the deterministic scheduler with a scheduling
+    point before every mutex acquisition and right after every release"""
+    import random
+    import sched as schedmod
+    from alpenhorn.io import default as dmod
+    from alpenhorn.io.default import DefaultNodeIO
+    from alpenhorn.scheduler import FairMultiFIFOQueue
+    rng = ctx.rng
+    factor = DefaultNodeIO.reserve_factor
+    real_statvfs = os.statvfs
+    nruns = 300 if ctx.quick() else 10000
+    with envmod.Env() as e:
+        w = worldmod.World(e)
+        g = w.group("g")
+        node = w.node("cn", g)
+        for run in range(nruns):
+            s = schedmod.Scheduler(rng=random.Random(rng.getrandbits(32)), yield_on_release=True)
+            saved = dmod._mutex
+            dmod._mutex = schedmod.CoopLock(s, reentrant=False)
+            avail = rng.choice([1000, 3000, 5000])
+
+            class SV:
+                f_bavail, f_bsize = avail, 1
+            os.statvfs = lambda p: SV if str(p) == node.root else real_statvfs(p)
+            with saved:
+                dmod._reserved_bytes["cn"] = 0
+            io = DefaultNodeIO(node, {}, FairMultiFIFOQueue())
+            live, events, errors = [], [], []
+            nth = rng.choice([2, 2, 3])
+            progs = [[rng.choice([100, 500, 1000, 1400]) for _ in range(rng.randint(1, 3))] for _ in range(nth)]
+
+            def mk(tid):
+                def body():
+                    mine = []
+                    for size in progs[tid]:
+                        ok = io.reserve_bytes(size)
+                        events.append(("reserve", tid, size, ok))
+                        if ok:
+                            mine.append(size)
+                        cur = dmod._reserved_bytes.get("cn", 0)      # the authoritative counter (only one thread runs at a time)
+                        if cur > avail or cur < 0:
+                            errors.append(f"over-committed: {cur} bytes reserved with only {avail} bytes free (events {events})")
+                    for size in mine:
+                        try:
+                            io.release_bytes(size)
+                            events.append(("release", tid, size))
+                        except ValueError as ex:
+                            errors.append(f"release raised: {ex}")
+                return body
+            try:
+                for i in range(nth):
+                    s.spawn(mk(i))
+                res = s.run()
+                with dmod._mutex if False else saved:
+                    final = dmod._reserved_bytes.get("cn", 0)
+            finally:
+                dmod._mutex = saved
+                os.statvfs = real_statvfs
+            ctx.count(f"concurrent:{res}:threads={nth}")
+            ctx.case(("conc", tuple(map(tuple, progs)), avail, tuple(s.taken)), nontrivial=True,
+                     sample={"sizes_per_thread": progs, "free": avail, "schedule": s.taken[:30], "events": events} if len(ctx.samples) < 5 and run < 3 else None)
+            if final != 0:
+                errors.append(f"{final} bytes remain reserved after every transfer released")
+            if res != "done":
+                errors.append(f"scheduler result {res}")
+            for er in errors[:1]:
+                ctx.violation("concurrent:" + er.split(":")[0], er, {"kind": "reserve-concurrent", "sizes_per_thread": progs, "free": avail,
+                                                                     "schedule": s.taken, "events": events})
 
 
 def run_one(sc):
